@@ -59,3 +59,19 @@ Proof. vm_compute. reflexivity. Qed.
 Example ex_join_oov : (reported_dic (join_oov_wid [stamp 1 3; oov_id 4; oov_id 4]), reported_dic (join_oov_wid [stamp 1 3; stamp 2 0]),
                        reported_dic (stamp 1 3)) = ((-1)%Z, 2%Z, 1%Z).
 Proof. vm_compute. reflexivity. Qed.
+
+(* the accessor on dictionaries whose number needs the 4th bit, and what an arithmetic shift of the raw id would report *)
+Definition arith_shift_28 (raw : N) : Z := if raw <? 2147483648 then Z.of_N (N.shiftr raw 28) else (Z.of_N (N.shiftr raw 28) - 16)%Z.
+Example ex_accessor : (map (fun d => reported_dic (stamp d 3)) [0; 7; 8; 14], reported_dic (oov_id 2),
+                       map (fun d => arith_shift_28 (stamp d 3)) [0; 7; 8; 14])
+                      = ([0; 7; 8; 14]%Z, (-1)%Z, [0; 7; (-8); (-2)]%Z).
+Proof. vm_compute. reflexivity. Qed.
+
+(* an inline reference to the system word (surface [1], POS 0, reading [9]) in a user dictionary that re-defines surface [1]
+   with POS 2: it resolves to the system word (0, 0), not to the user row that shares the surface; a reference that names the
+   user row resolves to it *)
+From SudachiVerif Require Import Model.Codec Model.CodecResolve Model.LexSetResolve.
+Example ex_shadowed_surface :
+  (loaded_refs 3 [key3 [1] 2 [9]; key3 [5] 4 [6]] [key3 [1] 0 [9]] [inline_of [1] 0 [9]; inline_of [1] 2 [9]])
+  = Some [0; stamp 3 0].
+Proof. vm_compute. reflexivity. Qed.
